@@ -149,7 +149,10 @@ class Ctx:
 
     def validate_both(self, pkg: Any) -> tuple[str | None, str | None]:
         """(V1 error on raw output, V2 error on lowered output) — None means valid."""
-        raw = pkg.to_bytes()
+        try:
+            raw = pkg.to_bytes()
+        except Exception as e:  # e.g. hugr's IncompleteOp: the compiler left a node unfinished
+            return f"package cannot be serialised: {type(e).__name__}: {e}", None
         e1 = execsub.validate_raw(raw)
         try:
             low = lower.lower_package(pkg)
